@@ -27,7 +27,7 @@ type c16Case struct {
 	Slack    int      `json:"slack"`
 }
 
-type c16 struct{ region *guard.Region }
+type c16 struct{ pool guard.Pool }
 
 func NewC16() core.Property { return &c16{} }
 func (*c16) ID() string     { return "C16" }
@@ -237,16 +237,10 @@ func (p *c16) Run(ci any, env *core.Env) *core.Failure {
 		b, _ := json.Marshal(c)
 		env.NonTrivial(core.HashOf(string(b)))
 	}
-	if p.region == nil {
-		r, err := guard.New(8192)
-		if err != nil {
-			panic(err)
-		}
-		p.region = r
-	}
-	h := p.region.AtEnd(buf, c.Slack)
-	p.region.ReadOnly()
-	defer p.region.Writable()
+	region := p.pool.For(len(buf) + 64)
+	h := region.AtEnd(buf, c.Slack)
+	region.ReadOnly()
+	defer region.Writable()
 
 	complete := false
 	var alt *regexp.Regexp
